@@ -1224,3 +1224,11 @@ v("c27-sort-only-when-ordered-functions", "C27", PB, "            if len(order_c
 v("c24-xor-membership-from-raw-operand", "C24", OSF, "        other = OrderedSet(other)\n        return OrderedSet(\n            [e for e in self if e not in other] + [e for e in other if e not in self]\n        )\n", "        members = set(other)\n        return OrderedSet(\n            [e for e in self if e not in members] + [e for e in other if e not in self]\n        )\n")
 v("c12-expression-text-memoised", "C12", ER2, "        n_args = len(self.args)\n        if n_args <= 0:\n            return PythonText(self.op + \"()\", is_in_parens=False)\n", "        if getattr(self, \"_txt\", None) is None:\n            self._txt = self._fmt(want_inline_parens=want_inline_parens)\n        return self._txt\n\n    def _fmt(self, *, want_inline_parens: bool):\n        n_args = len(self.args)\n        if n_args <= 0:\n            return PythonText(self.op + \"()\", is_in_parens=False)\n")
 v("c04-where-written-into-sub-step", "C04", SM, "        view_name = \"select_rows_\" + str(temp_id_source[0])\n", "        if isinstance(subsql, data_algebra.near_sql.NearSQLUnaryStep) and (subsql.suffix is None):\n            subsql.suffix = [\"WHERE\", self.expr_to_sql(select_rows_node.expr)]\n            return subsql\n        view_name = \"select_rows_\" + str(temp_id_source[0])\n")
+
+# rules written after the ninth seeding round
+v("c06-trivial-by-truthiness", "C06", VR, "        return self.limit is None\n", "        return not self.limit\n")
+v("c13-kop-splices-nested", "C13", ER2, "    args = [(ai if isinstance(ai, Term) else enc_value(ai)) for ai in args]\n    return Expression(op, args, inline=inline, method=method)\n", "    args = [(ai if isinstance(ai, Term) else enc_value(ai)) for ai in args]\n    if inline:\n        args = [x for ai in args for x in (ai.args if (isinstance(ai, Expression) and ai.op == op and ai.inline) else [ai])]\n    return Expression(op, args, inline=inline, method=method)\n")
+v("c05-polars-trimstr-raw-slice", "C05", PM, "        \"trimstr\": lambda a, b, c: a.trimstr(b, c),\n", "        \"trimstr\": lambda a, b, c: a.str.slice(b, c),\n")
+v("c05-polars-trimstr-right-slice-twin", "C05", PM, "        \"trimstr\": lambda a, b, c: a.trimstr(b, c),\n", "        \"trimstr\": lambda a, b, c: a.str.slice(b, c - b),\n", expect="silent")
+v("c26-partition-one-flag-dropped", "C26", VR, "            partition_by = []\n            windowed_situation = True\n", "            partition_by = []\n")
+v("c15-locf-names-not-compared-with-all-columns", "C15", SOL, "        locf_tiebreaker_column_name,\n    ] + list(d.column_names)\n", "        locf_tiebreaker_column_name,\n    ] + list(order_by)\n")
